@@ -9,7 +9,8 @@ set_option linter.unusedSimpArgs false
 set_option linter.unusedVariables false
 
 /-- the trees covered: no timeouts; leaves FunctionAction / SleepAction (≥ 1 ms); composites Wrapper,
-Composite, IfElse, Switch (with their arities) -/
+Composite, IfElse, Switch (with their arities), Sequence (all modes, any number of children), IfThen (any
+number of if/then pairs) -/
 def kindOk (d : Node) (n : Nat) : Bool :=
   match d.kind with
   | .func _ _ => n == 0
@@ -18,6 +19,8 @@ def kindOk (d : Node) (n : Nat) : Bool :=
   | .composite => decide (1 ≤ n)
   | .ifElse a b => n == 1 + (if a then 1 else 0) + (if b then 1 else 0)
   | .switch _ => decide (2 ≤ n)
+  | .seq _ => true
+  | .ifThen => n % 2 == 0
   | _ => false
 
 mutual
@@ -48,6 +51,8 @@ theorem good_all : ∀ (t : T), SerOk t = true → Clean t = true → Good t
     · rename_i hk; exact good_composite d cs hk hc.1 htmo hc.2 hch (by simpa using hko)
     · rename_i a b hk; exact good_ifElse d cs a b hk hc.1 htmo hc.2 hch (by simpa using hko)
     · rename_i hd hk; exact good_switch d cs hd hk hc.1 htmo hc.2 hch (by simpa using hko)
+    · rename_i m hk; exact good_seq d cs m hk hc.1 htmo hc.2 hch
+    · rename_i hk; exact good_ifThen d cs hk hc.1 htmo hc.2 hch (by simpa using hko)
     · cases hko
 theorem good_allL : ∀ (cs : TL), SerOkL cs = true → CleanL cs = true → ∀ j c, cs.get? j = some c → Good c
   | .nil, _, _, j, c, h => by simp [TL.get?] at h
@@ -132,5 +137,54 @@ theorem step_deliver (t : T) (g : G) (op : Op) (hop : cfOp op = true) (hu : g.us
   refine ⟨_, d.st, hin, ?_, ?_⟩
   · rw [step_cf _ g op hop, runQueue_one _ _ _ ht (by rw [advG_user]; exact hu), e, fireTimers_none _ _ hin.2]
   · rw [step_cf _ g op hop, runQueue_one _ _ _ ht (by rw [advG_user]; exact hu), e, fireTimers_none _ _ hin.2]
+
+theorem trOf_nil : trOf ([] : List Ev) = [] := rfl
+
+/-- **`C17_result_matches_doc` for the serial trees covered by `SerOk`**: start the freshly built tree,
+then any sequence of loop passes and clock steps.  What the owner observes — the calls of the leaf
+functions and the finish notifications of the root — is, when the evaluator assigns the result `r`:
+either a prefix of the evaluator's visit order (the run is still under way), or the complete visit order
+followed by exactly one finish notification carrying `r`. -/
+theorem result_matches_doc_run (t : T) (hs : SerOk t = true) (hc : Clean t = true) (ops : List Op) (hcf : ops.all cfOp = true)
+    (r : Bool × Nat) (hr : eval t = some r) :
+    (∃ pfx, pfx <+: visit t ∧ trOf (run t {} (.calls [.start] :: ops)).2.log = pfx.map Sum.inl) ∨
+    trOf (run t {} (.calls [.start] :: ops)).2.log = (visit t).map Sum.inl ++ [Sum.inr r] := by
+  have hgood := good_all t hs hc
+  have hg0 : GIu ({} : G) := ⟨GI_init, rfl⟩
+  obtain ⟨ok, hg1, _, _, _, hrun⟩ := hgood {} hg0
+  -- the first op = start, then the rest of that loop pass
+  have e0 : run t {} (.calls [.start] :: ops) = run (start t {}).1 (start t {}).2.1 (.pass :: ops) := by
+    rw [run, run]
+    have := step_start t {}
+    simp only [Prod.mk.injEq] at this
+    rw [this.1, this.2]
+  rw [e0, run_runU]
+  have hcf1 : (Op.pass :: ops).all cfOp = true := by simp [cfOp, hcf]
+  have rk := hrun (.pass :: ops) hcf1
+  have hrest := runU_rest (.pass :: ops) (start t {}).1 (start t {}).2.1
+  generalize runU (start t {}).1 (start t {}).2.1 (.pass :: ops) = R at rk hrest ⊢
+  obtain ⟨t', g', rest⟩ := R
+  obtain ⟨a1, a2, a3, a4⟩ := rk
+  simp only [trOf_nil, List.nil_append, hr] at a3 a4
+  simp only at a1 a2 a3 a4 hrest ⊢
+  by_cases hf : hasFin t' = true
+  · obtain ⟨⟨r', hr', hdone⟩, htr⟩ := a3 hf
+    cases hr'
+    cases rest with
+    | nil => left; exact ⟨visit t, List.prefix_refl _, by simpa [run] using htr⟩
+    | cons op rest' =>
+      right
+      have hopcf : cfOp op = true ∧ rest'.all cfOp = true := by have := hrest.2 hcf1; simpa using this
+      obtain ⟨t'', st, hin, e1, e2⟩ := step_deliver t' g' op hopcf.1 a1.2 r hdone
+      rw [run, e1, e2]
+      have hi := run_inert rest' t'' ((advG g' op).emit (.rootFin r.1 r.2 st)) hopcf.2 hin (by simp [G.emit, advG_user, a1.2])
+      rw [hi.2]
+      simp only [G.emit]
+      rw [trOf_cons_rootFin, advG_log, htr]
+  · have hf' : hasFin t' = false := by simpa using hf
+    obtain ⟨hre, hp⟩ := a4 hf'
+    subst hre
+    obtain ⟨pfx, hpp, e⟩ := hp (by simp)
+    left; exact ⟨pfx, hpp, by simpa [run] using e⟩
 
 end Tbox.C17
